@@ -120,6 +120,10 @@ def cases(tier, seed):
     # of an edge. There the nearest image in space need not be the image nearest in fractional coordinates
     for j in range(24 if tier == "quick" else 3000):
         out.append({"kind": "thin_sheared", "s": int(rng.integers(1 << 30))})
+    # an atom stored a little outside the box (a file written without wrapping: fractional coordinates of 1.02 or -0.01), bonded through
+    # the opposite face to an atom that lies deep inside the cell
+    for j in range(16 if tier == "quick" else 2000):
+        out.append({"kind": "stored_outside", "s": int(rng.integers(1 << 30))})
     # one site listed on two opposite faces of a triclinic cell (fractional 0 and 1): the two entries coincide through a periodic image
     for j in range(80 if tier == "quick" else 6000):
         out.append({"kind": "random", "s": int(rng.integers(1 << 30)), "cell": "tri", "coincide": True})
@@ -271,6 +275,56 @@ def run_case(case, ctx):
         if e1 in ("Zr", "O"):
             ctx.sample({"first_element": e1, "items": case["items"][:6], "note": "each item: second element, side of the cutoff (-1 below, +1 above), placement"})
         return
+    if case["kind"] == "stored_outside":
+        els_all = list(radii)
+        done = 0
+        for _pair in range(14):
+            e1 = els_all[int(rng.integers(len(els_all)))]
+            e2 = e1 if rng.integers(2) else els_all[int(rng.integers(len(els_all)))]
+            c = cutoff(e1, e2, radii, nonmetals)
+            L = max(c, cutoff(e1, e1, radii, nonmetals), cutoff(e2, e2, radii, nonmetals))
+            cell = rand_cell(rng, ["ortho", "tri", "general"][_pair % 3], 2.6 * L + 2.5, 4.0 * L + 4.0)
+            inv = np.linalg.inv(cell)
+            k = int(rng.integers(3))
+            nk = inv[:, k] / np.linalg.norm(inv[:, k])            # unit normal of the faces k, pointing from the low to the high face
+            wk = 1.0 / np.linalg.norm(inv[:, k])
+            sign = -1 if rng.integers(4) else 1
+            d = c + sign * 1e-3
+            theta = np.radians(rng.uniform(0, 12))
+            delta = float(rng.uniform(d * (1 - np.cos(theta)) + 0.02, 1.0))            # how far outside the stored atom lies
+            perp = np.cross(nk, rng.normal(size=3))
+            perp /= np.linalg.norm(perp)
+            u = np.cos(theta) * nk + np.sin(theta) * perp
+            f0 = rng.uniform(0.42, 0.58, 3)
+            f0[k] = delta / wk
+            high = bool(rng.integers(2))
+            b_in = f0.dot(cell)                   # the image of the outside atom that lies inside, `delta` from the low face
+            a_pos = b_in + d * u                  # its partner, at least one cutoff deep
+            if high:
+                b_store = b_in + cell[k]          # stored beyond the high face
+            else:
+                # mirror the construction: partner deep inside measured from the high face, the other atom stored below the low face
+                f0[k] = 1.0 - delta / wk
+                b_in = f0.dot(cell)
+                a_pos = b_in - d * u
+                b_store = b_in - cell[k]
+            fa = a_pos.dot(inv)
+            if not (np.all(fa > 0.02) and np.all(fa < 0.98)):
+                continue
+            first_inside = bool(rng.integers(3))
+            pos = np.array([a_pos, b_store]) if first_inside else np.array([b_store, a_pos])
+            els = [e1, e2] if first_inside else [e2, e1]
+            r = check(els, pos, cell, ctx, st, radii, nonmetals, "pair %s-%s at cutoff%+.0e, one atom stored %.2f A outside the cell" % (e1, e2, sign * 1e-3, delta),
+                      metamorphic_rng=rng if rng.integers(4) == 0 else None)
+            if r is None:
+                continue
+            done += 1
+            st.count("pairs_with_an_atom_stored_outside_the_cell")
+            if r[0]:
+                st.count("bonds_between_an_atom_stored_outside_the_cell_and_one_deep_inside")
+        if done:
+            ctx.nontrivial(["stored_outside", case["s"]])
+        return
     if case["kind"] == "thin_sheared":
         els_all = list(radii)
         heavy = ["Zr", "Hf", "Cs", "Ba", "La", "Pb", "Sr", "K", "Rb", "Th", "U", "Y"]
@@ -414,6 +468,8 @@ def requirements(stats, tier):
         need.append("too few image-only bonds in random structures")
     if stats.get("detections_after_inplace_cell_edit_with_other_bonding") < (10 if tier == "quick" else 1000):
         need.append("detections on an object whose cell was edited in place, with another expected bonding than before: %d" % stats.get("detections_after_inplace_cell_edit_with_other_bonding"))
+    if stats.get("bonds_between_an_atom_stored_outside_the_cell_and_one_deep_inside") < (80 if tier == "quick" else 10000):
+        need.append("bonds between an atom stored outside the cell and one deep inside: %d" % stats.get("bonds_between_an_atom_stored_outside_the_cell_and_one_deep_inside"))
     if stats.get("pairs_in_thin_sheared_cells") < (200 if tier == "quick" else 25000):
         need.append("pairs in thin sheared cells: %d" % stats.get("pairs_in_thin_sheared_cells"))
     if stats.get("pairs_in_cells_whose_edges_exceed_two_bonds_and_whose_face_spacing_does_not") < (60 if tier == "quick" else 8000):
